@@ -1578,6 +1578,43 @@ func ruleInitFresh(p *Prog, r *Result) {
 			}
 		}
 		r.add(bad == "", key, p.InstrPos(cur), firstNonEmpty(bad, "every return of Init follows the creation of a new cursor"))
+		// ... and positions it: a cursor need not stand anywhere before its first Seek (the library's own example
+		// storage answers `no more pairs` until then), so no return that can report success is reachable from the
+		// creation of the cursor without passing a Seek on it
+		seekBlocks := map[*ssa.BasicBlock]bool{}
+		for _, sx := range p.storage().ByFn[fn] {
+			if sx.Method == "Cursor.Seek" {
+				seekBlocks[sx.Instr.Block()] = true
+			}
+		}
+		unpos := ""
+		if !seekBlocks[cur.Block()] {
+			seen := map[*ssa.BasicBlock]bool{}
+			var walk func(b *ssa.BasicBlock)
+			walk = func(b *ssa.BasicBlock) {
+				if seen[b] || (seekBlocks[b] && b != cur.Block()) {
+					return
+				}
+				seen[b] = true
+				if ret := retOf(b); ret != nil && len(ret.Results) > 0 {
+					ev := retVal(ret, len(ret.Results)-1)
+					nonNil := false
+					for _, a := range dominatingAtoms(b) {
+						if a.Op == token.NEQ && a.X == ev && isNilConst(a.Y) {
+							nonNil = true
+						}
+					}
+					if !nonNil {
+						unpos = p.InstrPos(ret)
+					}
+				}
+				for _, sc := range b.Succs {
+					walk(sc)
+				}
+			}
+			walk(cur.Block())
+		}
+		r.add(unpos == "", key+"|positioned", p.InstrPos(cur), firstNonEmpty(map[bool]string{true: "Init can report success at " + unpos + " without having positioned the new cursor with Seek: what an unpositioned cursor returns is up to the storage"}[unpos != ""], "every successful return of Init lies behind a Seek on the new cursor"))
 	}
 	r.floor("cursor plans", n, 3)
 }
